@@ -1204,6 +1204,10 @@ static void ad_check_app(void) {
     RAW(SYS_close, ad.app[i]); ad.app[i] = -1;
   }
 }
+/* the connection may have been shed (EMFILE episode) or lost to an injected accept failure: nothing will arrive then.
+ * Three timer rounds, each separated by a poll phase that would have delivered a pending connection. */
+static int ad_rounds;
+static void ad_giveup(uv_timer_t* t) { (void) t; if (++ad_rounds >= 3 && !ad.observed) { OUT("I adopt: no connection arrived"); bail(); } }
 static void ad_conn_cb(uv_stream_t* srv, int status) {
   int rc;
   if (CB("connection_cb", status)) return;
@@ -1254,6 +1258,7 @@ static void sc_adopt(void) {
     if (A("uv_tcp_getsockname", uv_tcp_getsockname(ad.srv, (struct sockaddr*) &ad.addr, &len))) goto out;
     ad.raw_a = (int) RAW(SYS_socket, AF_INET, SOCK_STREAM | SOCK_CLOEXEC, 0);       /* the peer: a plain blocking connect */
     if (ad.raw_a < 0 || RAW(SYS_connect, ad.raw_a, &ad.addr, sizeof ad.addr)) { OUT("I adopt: harness connect failed"); goto out; }
+    { uv_timer_t* t = NEW(uv_timer_t); uv_timer_init(loop, t); uv_update_time(loop); uv_timer_start(t, ad_giveup, 100, 100); }
     uv_run(loop, UV_RUN_DEFAULT);
   } else if (!strcmp(ad.path, "ipc")) {
     int sv[2]; struct msghdr m; struct iovec io; char cb[CMSG_SPACE(sizeof(int))]; struct cmsghdr* c; int lfd;
